@@ -194,14 +194,18 @@ CLAIMS = {
         note=NOTE + "Hand-written and validated by correspondence: the abstraction of real statements into the model's statement type, "
              "history append, File.type. Not proved: diagnostic positions."),
     "C15": dict(
-        text="Theorems over ALL finite directory trees, current directories and argument lists, about Model/Select.v (glob patterns, "
-             "suffix tuple, messages and exit codes regenerated from __main__.py on every run; the selection code pinned by "
-             "fingerprint): only regular files ending in .c/.h that are named or lie below a named directory are checked (sound, "
+        text="The file-selection code of main() (work-list loop, suffix test, glob expansion, gitignore filter) is translated "
+             "statement by statement into Gallina over an abstract OS interface on every run (Gen/SelectCode.v, fail closed) and "
+             "the model is proved EQUAL to that translation (C15_model_is_translated_code), so the code is no longer pinned by a "
+             "fingerprint.  Theorems over ALL finite directory trees, current directories and argument lists, about "
+             "Model/Select.v and about the translated code (glob patterns, suffix tuple, messages and exit codes regenerated "
+             "from __main__.py on every run): only regular files ending in .c/.h that are named or lie below a named directory are checked (sound, "
              "also with --use-gitignore); a missing path aborts with status 1 and nothing is checked; a named file with another "
              "suffix gets the rejection message and is not checked; no argument = the argument `.`; with --use-gitignore exactly "
              "the files the git oracle reports ignored are removed; files are reported under their base name; the work list "
-             "terminates.  Completeness and once-per-mention are proved under a guard that excludes the two recorded findings "
-             "(dot-names below a named directory; directories named *.c/*.h), both refuted by witness.  Correspondence: random "
+             "terminates.  Completeness and once-per-mention are proved for all trees without names starting with `.` below the "
+             "named directories (the recorded finding C15-dot-names-skipped, refuted by witness); directories named *.c/*.h are "
+             "covered since the repair.  Correspondence: random "
              "trees x argument lists through the real main() and through the model inside Coq (selected names in order, messages, "
              "abort path, exit status); the property is evaluated on the real output against an independent specification.",
         ref="DESIGN.md 4.15", technique="Rocq proof over an abstract file system + differential runs of main() on generated trees",
@@ -255,23 +259,24 @@ CLAIMS = {
         ref="DESIGN.md 4.1", technique="Rocq proof (composition of header, guard, lexer-line and verdict theorems over an emitter table from source) + conforming-program search",
         note=NOTE + "Partial: 25 checks are only searched; which primaries matched (the history) is a hypothesis; programs are generated by the Python renderer, not a Coq AST."),
     "C02": dict(
-        text="PARTIAL.  38 of the 84 catalogue operators have machine-checked theorems (S01-S08, S11, L01, W01, W03-W10, W12-W15, "
-             "W17, T01-T04, O07, N01, N02, K01-K03, D04, F03, F04, F05), stated for EVERY token list and context view over "
-             "Gallina functions regenerated statement by statement from the current source of 12 checks on every run (fail "
+        text="PARTIAL.  45 of the 84 catalogue operators have machine-checked theorems (S01-S08, S11, L01, W01, W03-W10, W12-W15, "
+             "W17, T01-T04, O07, N01, N02, K01-K03, D04, F03, F04, F05, P04-P06, P09-P12), stated for EVERY token list and context view over "
+             "Gallina functions regenerated statement by statement from the current source of 13 checks on every run (fail "
              "closed: CheckTernary, LineLen, Label, ManyInstructions, EmptyLine, LineIndent, Spacing, the FORBIDDEN_<type> slice "
-             "of UtypeDeclaration, ExpressionStatement, ControlStatement, IdentifierName, Comment) and over the scope/counter "
+             "of UtypeDeclaration, ExpressionStatement, ControlStatement, IdentifierName, Comment, PreprocessorIndent - for the last one the EXACT list of "
+             "diagnostics is proved, C02_partial_preproc_indent_exact) and over the scope/counter "
              "models of the four limits: the pattern the operator creates makes the translated check emit the expected code on "
              "that line (iff / exact-value forms where stated; _given_history / _given_trace where the history or the matching "
              "primary is a hypothesis); S05, L01, K03, F04 are lifted to files over the generic registry-loop model.  Every "
-             "recorded invocation of the 12 checks is replayed inside Coq (token window, history, scope fields, emissions, "
+             "recorded invocation of the 13 checks is replayed inside Coq (token window, history, scope fields, emissions, "
              "exception class) and the scope/counter traces are replayed on the limit programs and their one-past-the-limit "
-             "edits.  The other 46 operators (5 of them only as known findings) are TESTED: the property itself is evaluated "
+             "edits.  The other 39 operators (5 of them only as known findings) are TESTED: the property itself is evaluated "
              "on the implementation for conforming programs (incl. programs sitting on a limit and multi-dot file names) x all "
              "operators x structurally varied sites; the forbidden constructs (ternary, for, switch, goto, label) are placed "
              "at sites of every statement kind a primary can match.  Ten genuine misses are recorded with narrow site "
              "predicates; four proved operators (W01, W05, N01, N02) coexist with listed findings outside the model's hypotheses.",
-        ref="DESIGN.md 4.2", technique="Rocq proof over check bodies translated from source (38 operators) + invocation-level correspondence + catalogue search (84 operators)",
-        note=NOTE + "Partial: 46 operators tested only; primaries are an oracle at file level; exit status is C04's theorem."),
+        ref="DESIGN.md 4.2", technique="Rocq proof over check bodies translated from source (45 operators) + invocation-level correspondence + catalogue search (84 operators)",
+        note=NOTE + "Partial: 39 operators tested only; primaries are an oracle at file level; exit status is C04's theorem."),
     "C19": dict(
         text="PARTIAL.  Theorems: a prefix of complete lines shifts the true position of every raw offset by its number of lines at "
              "the same column (all prefixes, texts, offsets), hence corresponding tokens of src and P ++ src differ by exactly that "
@@ -330,7 +335,8 @@ CLAIMS = {
              "conforming programs, token prefixes, 1-2 token edits under a CPU-time limit; exceptions classified by class + "
              "innermost frame.  (c) For the code whose model is regenerated from the source on every run (CheckTernary, CheckLineLen, CheckLabel, "
              "CheckManyInstructions, CheckEmptyLine, CheckLineIndent, CheckSpacing, CheckExpressionStatement, CheckControlStatement "
-             "(Ok or Hang: the outcome theorem that predicted the check_nest loop), CheckIdentifierName, the parameter counter of CheckFuncDeclaration "
+             "(Ok or Hang: the outcome theorem that predicted the check_nest loop), CheckIdentifierName, CheckPreprocessorIndent (ends normally or "
+             "raises AttributeError on a missing token, never anything else), the parameter counter of CheckFuncDeclaration "
              "with Context.skip_nest, CheckLineCount / CheckFunctionsCount / the variable counter, the scope bookkeeping of the "
              "registry loop) it is proved for EVERY token list and context that it ends normally under the invariants the "
              "registry guarantees (tokens not exhausted, matched primary already in the history, tkn_scope >= 0, scope chain "
